@@ -947,6 +947,20 @@ func NumCPU() int {
 	return runtime.NumCPU()
 }
 
+// GOMAXPROCS replaces runtime.GOMAXPROCS: queries (n < 1) are answered like NumCPU, so that code
+// which looks at either sees the processor count of the scenario; changes are passed through.
+func GOMAXPROCS(n int) int {
+	if n < 1 {
+		if x := cur; x != nil && x.cfg.NumCPU > 0 {
+			return x.cfg.NumCPU
+		}
+		if forcedCPU > 0 {
+			return forcedCPU
+		}
+	}
+	return runtime.GOMAXPROCS(n)
+}
+
 var forcedCPU int
 
 // SetNumCPU forces NumCPU outside executions (0 = real).
